@@ -7,7 +7,7 @@ re-extracted from /repo on every run.
 namespace NanoVerif
 open Gen
 
-def tol : Q := ALMOST_EQUAL_TOL
+abbrev tol : Q := ALMOST_EQUAL_TOL
 
 /-- `almost_equal(v, int(v)) and MIN_INT16 <= v <= MAX_INT16` -/
 def int16Safe1 (v : Q) : Bool :=
